@@ -119,6 +119,9 @@ func runTransferStream(t *testing.T, name string, mt bool) {
 		r := &Rng{s: seed*1000003 + uint64(i)*7919 + 17}
 		n := 2 + r.Intn(3)
 		relay := n >= 3 && r.Chance(70)
+		if !mt && i%3 == 2 && i%2 == 0 {
+			n, relay = 4, false // room for a three-hop route
+		}
 		w := NewWorld(t, n)
 		g := &TransferGen{w: w, r: r, stats: map[string]int{}, relay: relay, mt: mt, script: i % 3}
 		g.Run(nops)
@@ -147,4 +150,20 @@ func TestStreamRouting(t *testing.T) {
 		out.add(w, g.stats)
 	}
 	out.write(t, "routing")
+}
+
+// TestStreamAuth generates the authority correspondence stream (C15).
+func TestStreamAuth(t *testing.T) {
+	seed := uint64(envInt("VERIF_SEED", 1))
+	cases := envInt("VERIF_CASES", 4)
+	nops := envInt("VERIF_OPS", 60)
+	out := &streamOut{stats: map[string]int{}}
+	for i := 0; i < cases; i++ {
+		r := &Rng{s: seed*1000003 + uint64(i)*7919 + 41}
+		w := NewWorld(t, 2)
+		g := &AuthGen{w: w, r: r, stats: map[string]int{}}
+		g.Run(nops)
+		out.add(w, g.stats)
+	}
+	out.write(t, "auth")
 }
